@@ -51,9 +51,11 @@ def write(mod, prop, tier, seed, records, errors, wall, n_viol, n_known):
         "fault_kinds_fired": faults,
         "probes_hit": probes,
         "counters": other,
-        "unsupported_programs": sum(1 for r in records if "unsupported" in r),
-        "known_finding_runs": n_known,
-        "harness_errors": len(errors),
+        "bookkeeping": {
+            "unsupported_programs": sum(1 for r in records if "unsupported" in r),
+            "known_finding_runs": n_known,
+            "harness_errors": len(errors),
+        },
         "components_real": getattr(mod, "REAL", []),
         "components_stub": getattr(mod, "STUB", []),
         "tolerances": getattr(mod, "TOLERANCES", {}),
